@@ -72,19 +72,30 @@ class NtTriplesYielder(BaseTriplesYielder):
 
     def _look_for_last_index_of_bnode_token(self, target_str, first_index):
         target_substring = target_str[first_index:]
-        index_sub = target_substring.find(" ")
+        index_sub = self._index_of_token_end(target_substring)
         return index_sub + (len(target_str) - len(target_substring)) - 1
 
     def _look_for_last_index_of_unlabelled_number_token(self, target_str, first_index):
         target_substring = target_str[first_index:]
-        index_sub = target_substring.find(" ")
+        index_sub = self._index_of_token_end(target_substring)
         return index_sub + (len(target_str) - len(target_substring)) - 1
+
+    @staticmethod
+    def _index_of_token_end(target_substring):
+        """
+        Index of the first blank (space or tab) in target_substring. When there is none, the token reaches
+        the end of the line, except for the dot that closes the statement.
+        """
+        for i in range(len(target_substring)):
+            if target_substring[i] in " \t":
+                return i
+        return len(target_substring) - 1 if target_substring.endswith(".") else len(target_substring)
 
     def _look_for_last_index_of_literal_token(self, target_str, first_index):
         target_substring = target_str[first_index:]
 
         if there_is_arroba_after_last_quotes(target_substring):  # String labelled with language
-            return target_substring[target_substring.rfind("@"):].find(" ") - 1 + target_str.rfind("@")
+            return self._index_of_token_end(target_substring[target_substring.rfind("@"):]) - 1 + target_str.rfind("@")
         elif "^^" not in target_substring:  # Not typed
             success = False
             index_of_quotes = 1
@@ -97,7 +108,7 @@ class NtTriplesYielder(BaseTriplesYielder):
                 index_of_quotes = index_of_second_quotes
             return index_of_quotes + (len(target_str) - len(target_substring))
         else:  # Typed
-            return target_substring[target_substring.find("^^"):].find(" ") - 1 + target_str.find("^^")
+            return self._index_of_token_end(target_substring[target_substring.find("^^"):]) - 1 + target_str.find("^^")
 
     @property
     def yielded_triples(self):
